@@ -57,6 +57,9 @@ def _profile(mins, url, dtprofup, status, with_profrs):
             if ms in ("BANKMSGSET", "CREDITCARDMSGSET"):
                 setleaf(v1, ["CLOSINGAVAIL"], "Y")
             msl[2].append(m)
+        sil = next((k for k in prs[2] if k[0] == "SIGNONINFOLIST"), None)
+        if sil is not None and not sil[2]:
+            sil[2].append(copy.deepcopy(mins["SIGNONINFO"]))
         setleaf(prs, ["DTPROFUP"], dtprofup)
         trn[2].append(prs)
     ofx[2].append(["PROFMSGSRSV1", None, [trn]])
